@@ -303,6 +303,12 @@ def run(pr, repo):
     census_ambient(pr, repo)
     ground_nccg(pr, repo)
     census_set_iteration(pr, repo)
+    frames.decorator_census(pr, repo)
+    frames.query_is_pure(pr, repo, ['propka.molecular_container.MolecularContainer.get_pi',
+                                    'propka.molecular_container.MolecularContainer.get_charge_profile',
+                                    'propka.molecular_container.MolecularContainer.get_folding_profile',
+                                    'propka.molecular_container.MolecularContainer.write_pka'],
+                         'queries behind the written file')
     # the squared cut-offs are class-level descriptors: they must keep no state shared between Parameters instances
     pr.parallel([(task_valence, ()), (task_fresh, ()), (task_open, ()), (task_param_lookup, ()), (C18.task_squared, ())])
     pr.assumptions += ['CPython dict insertion order; A-REFL', 'composition step; the history quantifier is covered by the bounded monitor only']
